@@ -181,3 +181,34 @@ def pq_sweep(tier, seed=0):
             "bound": {"vals": "strictly increasing ints from range(6)", "max_len": maxlen, "weights": list(wts), "npartitions": "1..5", "random float-weighted summaries": nrand},
             "cases": cases, "distinct_nontrivial": cases, "failures_found": len(fails), "wall_s": round(time.time() - t0, 2),
             "samples": [{"native_case": {"vals": [1, 2, 3], "weights": [4, 1, 1], "npartitions": 2}}], "failures": fails}
+
+
+def percentile_grid_sweep(tier, seed=0):
+    """sample_percentiles (first stage of the quantile pipeline): a sorted grid of percentiles that starts at exactly 0
+    and ends at exactly 100, so that the minimum and the maximum of every partition are always sampled."""
+    import numpy as np
+
+    t0 = time.time()
+    fn = srcexec.load("dask/dataframe/partitionquantiles.py", "sample_percentiles", {"np": np})
+    cases, fails = 0, []
+    for num_old in (1, 2, 3, 8, 40, 200):
+        for num_new in (1, 2, 3, 10, 50):
+            for chunk_length in (1, 5, 12, 40, 100, 1000, 10 ** 5):
+                for upsample in (1.0, 2.5):
+                    for rs in (0, 1, 12345):
+                        cases += 1
+                        try:
+                            qs = np.asarray(fn(num_old, num_new, chunk_length, upsample=upsample, random_state=rs))
+                            msg = None
+                            if len(qs) < 2 or qs[0] != 0 or qs[-1] != 100:
+                                msg = f"grid runs from {qs[0] if len(qs) else None} to {qs[-1] if len(qs) else None}, not from 0 to 100"
+                            elif (qs[1:] < qs[:-1]).any() or qs.min() < 0 or qs.max() > 100:
+                                msg = "grid is not sorted within [0, 100]"
+                        except Exception as e:  # noqa
+                            msg = f"{type(e).__name__}: {e}"
+                        if msg and len(fails) < 4:
+                            fails.append(rtc.Failure("sample_percentiles", {"num_old": num_old, "num_new": num_new, "chunk_length": chunk_length, "upsample": upsample, "random_state": rs}, "ensures", "C45-quantile-divisions-span-min-max", msg))
+    return {"function": "dask/dataframe/partitionquantiles.py:sample_percentiles (extracted source, NumPy; bounded only)", "bounded": True,
+            "bound": {"num_old": [1, 2, 3, 8, 40, 200], "num_new": [1, 2, 3, 10, 50], "chunk_length": "1 .. 1e5", "upsample": [1.0, 2.5], "random_state": 3},
+            "cases": cases, "distinct_nontrivial": cases, "failures_found": len(fails), "wall_s": round(time.time() - t0, 2),
+            "samples": [{"native_case": {"num_old": 8, "num_new": 3, "chunk_length": 100}}], "failures": fails}
